@@ -3017,6 +3017,8 @@ class MOFCompiler:
             # log = logging.getLogger()
             # logging.basicConfig(level=logging.DEBUG)
             for mof_str in mof if isinstance(mof, list) else [mof]:
+                if mof_str is None and isinstance(mof, list):
+                    continue  # NULL item of an array of embedded objects
                 if not isinstance(mof_str, str):
                     raise TypeError(
                         _format("The value of an embedded object property "
